@@ -167,9 +167,13 @@ class Bits:
         if offset is not None:
             raise bitstring.CreationError(f"offset cannot be used when initialising with '{k}'.")
         try:
-            Dtype(k, length).set_fn(self, v)
+            dtype = Dtype(k, length)
+            dtype.set_fn(self, v)
         except ValueError as e:
             raise bitstring.CreationError(e)
+        if dtype.bitlength is not None and len(self) != dtype.bitlength:
+            raise bitstring.CreationError(f"The {k} initialiser has a value that is {len(self)} bits long, which doesn't "
+                                          f"match the length of {dtype.bitlength} bits that was asked for.")
 
     def __getattr__(self, attribute: str) -> Any:
         # Support for arbitrary attributes like u16 or f64.
